@@ -187,3 +187,13 @@ Example C15_example :
              (run (init 1) C15_example_run)
   = Some (PExited, Some 2, 3, 9, true, true, true, true, true, true).
 Proof. vm_compute. reflexivity. Qed.
+
+(* ---- the synchronisation skeleton the consumer-group model assumes (which Go critical
+   section / channel operation each label of Model/ConsumerGroup.v stands for:
+   Model/SkeletonAssumptions.v, consumergroup_assumptions) holds of /repo's CURRENT source:
+   facts regenerated by harness/cmd/vskel on every run. *)
+From KV Require Model.SkeletonAssumptions Gen.Skeleton Proofs.SkeletonConsumerGroup.
+Theorem C15_skeleton_assumptions :
+  KV.Model.SkeletonAssumptions.consumergroup_assumptions_hold KV.Gen.Skeleton.calls KV.Gen.Skeleton.accesses = true.
+Proof. exact KV.Proofs.SkeletonConsumerGroup.consumergroup_skeleton_ok. Qed.
+Print Assumptions C15_skeleton_assumptions.
